@@ -211,9 +211,28 @@ pub fn run_c02(o: &Opts) -> i32 {
         match &alg { Ok(d) => { nok += 1; writeln!(aux, "{}", json!({"alg": dv_fmt(d)})).unwrap(); } Err(()) => { nerr += 1; writeln!(aux, "{}", json!({"alg": "refuse"})).unwrap(); } }
         if samples.len() < 10 && k % 501 == 1 { samples.push(text); }
     }
+    // unit lists: every member must have the dimensionality of the value; one foreign member at any position refuses
+    let groups: Vec<&Vec<String>> = db.by_dim.values().filter(|v| v.len() >= 2).collect();
+    let nlists = n / 30;
+    for _ in 0..nlists {
+        let gi = g.rng.below(groups.len() as u64) as usize;
+        let grp = groups[gi];
+        let len = 2 + g.rng.below(4) as usize;
+        let mut members: Vec<String> = (0..len).map(|_| g.rng.pick(grp).clone()).collect();
+        let src = format!("{} {}", coef_pos(g.rng), g.rng.pick(grp));
+        let other = groups[(gi + 1 + g.rng.below(groups.len() as u64 - 1) as usize) % groups.len()];
+        let pos = g.rng.below(len as u64) as usize;
+        members[pos] = g.rng.pick(other).clone();
+        let sep = *g.rng.pick(&[";", "; ", ", "]);
+        let text = format!("{} -> {}", src, members.join(sep));
+        if text.chars().count() > 450 { continue; }
+        writeln!(req, "{}", req_line(&text)).unwrap();
+        writeln!(aux, "{}", json!({"alg": "refuse"})).unwrap();
+        nerr += 1;
+    }
     let fstats = g.fstats.clone();
     req.flush().unwrap(); aux.flush().unwrap();
-    crate::util::write_json(&format!("{}/stats.json", o.out), &json!({"total": n, "algebra_defined": nok, "algebra_refuses": nerr,
+    crate::util::write_json(&format!("{}/stats.json", o.out), &json!({"total": n + nlists, "unit_lists_with_a_foreign_member": nlists, "algebra_defined": nok, "algebra_refuses": nerr,
         "unit_names": db.names.len(), "dimensionalities": db.by_dim.len(), "operators": fstats, "samples": samples}));
     0
 }
@@ -644,7 +663,8 @@ pub fn run_c17(o: &Opts) -> i32 {
     for (name, d) in &qdims {
         let i = emit(format!("units for {}", name), "unitsfor", d, None, &mut total, &mut samples);
         emit(format!("units for {}", dims_expr(d)), "unitsfor", d, Some(i), &mut total, &mut samples);
-        if score(d) <= if o.thorough { 8 } else { 6 } {
+        // (the search is memoised since the fix: every named quantity can be asked, whatever its complexity)
+        if score(d) <= 18 {
             let j = emit(format!("factorize {}", name), "factorize", d, None, &mut total, &mut samples);
             emit(format!("factorize {}", dims_expr(d)), "factorize", d, Some(j), &mut total, &mut samples);
         }
@@ -654,7 +674,7 @@ pub fn run_c17(o: &Opts) -> i32 {
     for d in &all_dims {
         if !o.thorough && !rng.chance(1, 3) { continue; }
         emit(format!("units for {}", dims_expr(d)), "unitsfor", d, None, &mut total, &mut samples);
-        if score(d) <= if o.thorough { 7 } else { 5 } { emit(format!("factorize {}", dims_expr(d)), "factorize", d, None, &mut total, &mut samples); }
+        if score(d) <= if o.thorough { 16 } else { 14 } { emit(format!("factorize {}", dims_expr(d)), "factorize", d, None, &mut total, &mut samples); }
     }
     // random products of base units with exponents -3..3
     let bases: Vec<String> = reg.base_units.iter().map(|b| b.to_string()).collect();
@@ -665,10 +685,77 @@ pub fn run_c17(o: &Opts) -> i32 {
         for _ in 0..k { let e = rng.range(-3, 3); if e != 0 { m.insert(rng.pick(&bases).clone(), e); } }
         let d: Dimensionality = m.iter().map(|(k, p)| (rink_core::types::BaseUnit::new(k), *p)).collect();
         emit(format!("units for {}", dims_expr(&d)), "unitsfor", &d, None, &mut total, &mut samples);
-        if score(&d) <= 5 { emit(format!("factorize {}", dims_expr(&d)), "factorize", &d, None, &mut total, &mut samples); }
+        if score(&d) <= 12 { emit(format!("factorize {}", dims_expr(&d)), "factorize", &d, None, &mut total, &mut samples); }
     }
     drop(emit);
     req.flush().unwrap(); aux.flush().unwrap();
     crate::util::write_json(&format!("{}/stats.json", o.out), &json!({"total": total, "quantities": qdims.len(), "dimensionalities": all_dims.len(), "samples": samples, "quantity_dims": qtable}));
+    0
+}
+
+// ------------------------------------------------------------------------------------ C03: what a conformance error says
+
+/// post-pass for C03: for every conversion of req.txt whose two sides evaluate to numbers of different
+/// dimensionality, the reply must be a conformance error that flags the reciprocal case exactly when the
+/// product of the two units is dimensionless, and otherwise names a factor that really is the missing one
+/// (`multiply|divide left|right side by D`, D read back through the quantity table).
+pub fn c03_suggest(o: &Opts) -> i32 {
+    use rink_core::output::QueryError;
+    let db = Db::new();
+    let reg = &db.ctx.registry;
+    let mut ctx = crate::evalsess::new_context();
+    ctx.save_previous_result = false;
+    let text = std::fs::read_to_string(format!("{}/req.txt", o.out)).expect("req.txt");
+    let mut out = o.writer("suggest_oracle.jsonl");
+    let qdims: std::collections::BTreeMap<String, Dimensionality> = reg.quantities.iter().map(|(d, n)| (n.clone(), d.clone())).collect();
+    let parse_desc = |d: &str| -> Option<Dimensionality> {
+        let mut acc = Dimensionality::new();
+        for tok in d.split_whitespace() {
+            let (name, pow) = match tok.rsplit_once('^') { Some((n, p)) => (n, p.parse::<i64>().ok()?), None => (tok, 1) };
+            let dims = if name.starts_with('\'') && name.ends_with('\'') && name.len() >= 2 { Dimensionality::base_unit(rink_core::types::BaseUnit::new(&name[1..name.len() - 1])) } else { qdims.get(name)?.clone() };
+            acc = &acc * &dims.pow(pow);
+        }
+        Some(acc)
+    };
+    let (mut checked, mut unparsed, mut bad) = (0u64, 0u64, 0u64);
+    std::panic::set_hook(Box::new(|_| {}));
+    for line in text.lines() {
+        let p: Vec<&str> = line.split(' ').collect();
+        if p.len() < 2 || !(p[0] == "eval" || p[0] == "evalp") { continue; }
+        let q = crate::evalsess::unhex(p[1]);
+        let (l, r) = match q.split_once("->") { Some(x) => x, None => continue };
+        let (top, bottom) = match (eval_number(&ctx, l.trim()), eval_number(&ctx, r.trim())) { (Some(a), Some(b)) => (a, b), _ => continue };
+        if top.unit == bottom.unit { continue; }
+        let res = std::panic::catch_unwind(std::panic::AssertUnwindSafe(|| crate::evalsess::eval_pinned(&mut ctx, &q).1));
+        let err = match res { Ok(Err(QueryError::Conformance(e))) => e, Ok(Ok(_)) | Ok(Err(_)) | Err(_) => continue };  // the error class is judged elsewhere
+        checked += 1;
+        let product_dimless = (&top.unit * &bottom.unit).is_dimensionless();
+        let flagged = err.suggestions.iter().any(|s| s.starts_with("Reciprocal conversion"));
+        let mut why: Option<String> = None;
+        if flagged != product_dimless {
+            why = Some(if flagged { "flagged as a reciprocal conversion although the product of the two units is not dimensionless".into() } else { "the reciprocal case is not flagged".into() });
+        } else if !product_dimless {
+            for s in &err.suggestions {
+                let w: Vec<&str> = s.splitn(5, ' ').collect();   // multiply|divide left|right side by D
+                if w.len() < 5 || w[2] != "side" || w[3] != "by" { unparsed += 1; continue; }
+                let d = match parse_desc(w[4]) { Some(d) => d, None => { unparsed += 1; continue; } };
+                let ok = match (w[0], w[1]) {
+                    ("multiply", "left") => &top.unit * &d == bottom.unit,
+                    ("divide", "left") => &top.unit / &d == bottom.unit,
+                    ("multiply", "right") => top.unit == &bottom.unit * &d,
+                    ("divide", "right") => top.unit == &bottom.unit / &d,
+                    _ => { unparsed += 1; continue; }
+                };
+                if !ok { why = Some(format!("suggestion {:?} does not make the two sides conformable", s)); }
+            }
+            if err.suggestions.is_empty() { why = Some("no suggestion names the missing factor".into()); }
+        }
+        if let Some(w) = why {
+            bad += 1;
+            if bad <= 50 { writeln!(out, "{}", json!({"query": q, "why": w, "suggestions": err.suggestions, "left": fmt_dim(&top.unit), "right": fmt_dim(&bottom.unit)})).unwrap(); }
+        }
+    }
+    out.flush().unwrap();
+    crate::util::write_json(&format!("{}/suggest_stats.json", o.out), &json!({"conformance_errors_checked": checked, "suggestions_not_parsed": unparsed, "violations": bad}));
     0
 }
